@@ -132,7 +132,7 @@ package p9p
 //@ let S0 = (4 + old(wireSize(*fcall)))
 //@ requires ch != nil && ch.codec != nil && fcall != nil && 0 <= ch.msize && ch.msize < 2147483648
 //@ let SMALL = (typeis(old(fcall.Message), MessageTwrite) ==> len(old(fcall.Message.(MessageTwrite).Data)) < 4294967296 - 23)
-//@ ensures frame: SMALL ==> (fcall.Type == old(fcall.Type) && fcall.Tag == old(fcall.Tag) && ch.msize == old(ch.msize) && unchanged("E:uint8"))
+//@ ensures frame: fcall.Type == old(fcall.Type) && fcall.Tag == old(fcall.Tag) && ch.msize == old(ch.msize) && unchanged("E:uint8")
 //@ ensures fits: SMALL ==> (err == nil && !typeis(M0, MessageTread) ==> 4 + wireSize(*fcall) <= ch.msize)
 //@ ensures twrite_prefix: SMALL ==> (typeis(M0, MessageTwrite) && err == nil ==> typeis(fcall.Message, MessageTwrite) && base(D1) == base(D0) && off(D1) == off(D0) && len(D1) <= len(D0) && fcall.Message.(MessageTwrite).Fid == old(fcall.Message.(MessageTwrite).Fid) && fcall.Message.(MessageTwrite).Offset == old(fcall.Message.(MessageTwrite).Offset))
 //@ ensures twrite_never_fails: SMALL ==> (typeis(M0, MessageTwrite) && ch.msize >= 23 ==> err == nil)
@@ -161,7 +161,7 @@ package p9p
 //@ let D1 = fcall.Message.(MessageTwrite).Data
 //@ requires ctx != nil && ch != nil && ch.codec != nil && ch.conn != nil && ch.bwr != nil && fcall != nil && 0 <= ch.msize && ch.msize < 2147483648
 //@ let SMALL = (typeis(old(fcall.Message), MessageTwrite) ==> len(old(fcall.Message.(MessageTwrite).Data)) < 4294967296 - 23)
-//@ ensures caller_buffer: SMALL ==> (preserved("E:uint8") && ch.msize == old(ch.msize) && fcall.Type == old(fcall.Type) && fcall.Tag == old(fcall.Tag))
+//@ ensures caller_buffer: preserved("E:uint8") && ch.msize == old(ch.msize) && fcall.Type == old(fcall.Type) && fcall.Tag == old(fcall.Tag)
 //@ ensures one_frame: SMALL ==> (err == nil ==> out(ch.bwr) == bcat(old(out(ch.bwr)), bcat(le4(4 + wireSize(*fcall)), encFcall(*fcall))) && (4 + wireSize(*fcall) <= ch.msize || (typeis(M0, MessageTread) && ch.msize < 23)))
 //@ ensures nothing_on_error: SMALL ==> (err != nil && !iofailed() ==> out(ch.bwr) == old(out(ch.bwr)))
 //@ ensures cancelled: SMALL ==> (old(cancelled(ctx)) ==> err != nil && out(ch.bwr) == old(out(ch.bwr)))
@@ -668,6 +668,7 @@ package p9p
 
 //@ iface roundTripper.send
 //@ modifies alloc, sentmsg, replymsg, senderr, sendcount
+//@ requires msg != nil
 //@ ensures sentmsg(self) == msg && sendcount(self) == old(sendcount(self)) + 1
 //@ ensures result0 == replymsg(self) && err == senderr(self) && (err != nil ==> result0 == nil)
 
@@ -889,3 +890,44 @@ package p9p
 //@ property C10 C11
 //@ requires ctx != nil && cn != nil && handler != nil
 //@ ensures stop_exactly_once_or_refused: gk(stopcalls, 0) == old(gk(stopcalls, 0)) + 1 || (err != nil && gk(stopcalls, 0) == old(gk(stopcalls, 0)) && HEP == old(HEP) && spawned() == old(spawned()))
+
+// ---------------------------------------------------------------- transport.go (C05 C12)
+//
+// reqtag(r)    - the tag under which request r was written to the wire
+// delivered(r) - number of messages put on r's reply/error channels (each has capacity 1)
+//@ ghost reqtag Tag
+//@ ghost delivered int zero
+//@ ghost registered bool zero
+
+//@ macro REQOK(r) = (r != nil && wt(r) && allocated(r) && r.message != nil && r.response != nil && r.err != nil && chancap(r.response) >= 1 && chancap(r.err) >= 1 && r.ctx != nil)
+//@ macro INVO = (outstanding != nil && !has(outstanding, NOTAG) && (forall u Tag :: {has(outstanding, u)} has(outstanding, u) ==> REQOK(outstanding[u]) && registered(outstanding[u]) && reqtag(outstanding[u]) == u && delivered(outstanding[u]) == 0) && (forall u Tag, v Tag :: {outstanding[u], outstanding[v]} has(outstanding, u) && has(outstanding, v) && u != v ==> outstanding[u] != outstanding[v]))
+//@ macro TROK = (t != nil && t.ch != nil && t.requests != nil && t.shutdown != nil && t.closed != nil && t.ctx != nil && (typeis(t.ch, *channel) ==> CHINV(t.ch.(*channel))) && (oncedone(&t.once) ==> closedch(t.shutdown)) && (!oncedone(&t.once) ==> !closedch(t.shutdown)))
+
+//@ func (*transport).handle
+//@ property C05 C12
+//@ requires TROK && !closedch(t.closed)
+//@ chan requests: REQOK(m) && delivered(m) == 0 && !registered(m)
+//@ chan responses: m != nil && !stale(m)
+//@ chan response: m != nil
+//@ loop 1 invariant INVO && TROK && responses != nil && !closedch(t.closed)
+//@ at "outstanding[selected] = req" assert fresh_tag: !has(outstanding, selected) && selected != NOTAG
+//@ at "outstanding[selected] = req" set reqtag(req) := selected
+//@ at "outstanding[selected] = req" set registered(req) := true
+//@ at "t.ch.WriteFcall(req.ctx, fcall)" assert frame_carries_tag: fcall != nil && fcall.Tag == selected && fcall.Message == req.message
+//@ site err#1: delivered(req) == 0 && chancap(req.err) >= 1
+//@ site err#2: delivered(req) == 0 && chancap(req.err) >= 1 && !has(outstanding, selected)
+//@ site response#1: m.Tag == reqtag(req) && delivered(req) == 0 && chancap(req.response) >= 1 && !has(outstanding, m.Tag)
+//@ at "req.err <- err" set delivered(req) := delivered(req) + 1
+//@ at "req.response <- b" set delivered(req) := delivered(req) + 1
+
+//@ func (*transport).handle$2
+//@ property C05 C12
+//@ requires TROK && responses != nil
+//@ chan responses: m != nil && !stale(m)
+//@ loop 1 invariant TROK && responses != nil
+
+//@ func (*transport).send
+//@ property C05 C12
+//@ requires t != nil && t.requests != nil && t.closed != nil && ctx != nil && msg != nil
+//@ chan requests: REQOK(m) && delivered(m) == 0 && !registered(m)
+//@ chan response: m != nil
